@@ -470,6 +470,8 @@ type c03Case struct {
 	maxRound    uint32
 	dead        bool
 	propTbl     map[uint64][]int // height -> proposer index by round (1-based)
+	byz         map[int]bool      // validators whose delivered, well-signed votes no correct validator could have sent
+	firstVote   map[string]string // (type,h,r,idx) -> block id key, to spot equivocation
 	seen        map[uint64]*types.Commit
 }
 
@@ -1001,6 +1003,9 @@ func (c *c03Case) run(input string, f func() string) {
 		}
 		c.o.Count("panic:" + cl)
 		c.o.Mark("panic:" + cl)
+		if bp := c.byzPower(); 3*bp <= c.net.total {
+			c.o.Fail(c.opNo-1, "panic-with-at-most-one-third-byzantine", fmt.Sprintf("class=%s evident-byzantine-power=%d total=%d", cl, bp, c.net.total))
+		}
 		if cl == "other" {
 			c.o.Count("panic-text:" + strings.Split(panicked, "\n")[0])
 		}
@@ -1054,6 +1059,9 @@ func (c *c03Case) opVote(peer int, v *types.Vote, ok bool) {
 			c.o.Count("vote:rejected-by-ValidateBasic")
 			return ""
 		}
+		if ok {
+			c.evidence(typ, v)
+		}
 		if int(v.ValidatorIndex) < c.net.n {
 			c.recv = append(c.recv, c03RecvVote{typ: typ, height: v.Height, round: v.Round, bid: c03BidKey(v.BlockID), idx: int(v.ValidatorIndex), ok: ok})
 		}
@@ -1063,6 +1071,38 @@ func (c *c03Case) opVote(peer int, v *types.Vote, ok bool) {
 		}
 		return c.nd.deliverMsg(msg, pid)
 	})
+}
+
+// evidence records validators that are provably faulty from the votes delivered so far: equivocation,
+// a vote for something that is not a valid block of that height (unknown hash, invalid block,
+// foreign parts header), or a vote in round 0.  Their power is a lower bound on the Byzantine power
+// of the script; a panic with at most 1/3 of evident Byzantine power is reported as an oracle failure.
+func (c *c03Case) evidence(typ int, v *types.Vote) {
+	idx := int(v.ValidatorIndex)
+	k := fmt.Sprintf("%d/%d/%d/%d", typ, v.Height, v.Round, idx)
+	bk := c03BidKey(v.BlockID)
+	if prev, ok := c.firstVote[k]; ok && prev != bk {
+		c.byz[idx] = true
+	} else if !ok {
+		c.firstVote[k] = bk
+	}
+	if v.Round == 0 {
+		c.byz[idx] = true
+	}
+	if !v.BlockID.IsZero() {
+		b := c.byHash[v.BlockID.Hash]
+		if b == nil || b.validAt != v.Height || !b.parts.HasHeader(v.BlockID.PartsHeader) {
+			c.byz[idx] = true
+		}
+	}
+}
+
+func (c *c03Case) byzPower() int64 {
+	s := int64(0)
+	for i := range c.byz {
+		s += c.net.powers[i]
+	}
+	return s
 }
 
 func c03b(b bool) int {
@@ -1358,6 +1398,80 @@ func (c *c03Case) advTimeout() {
 	c.opTimeout(cs.Height, cs.Round+uint32(c.r.Intn(3)), cstypes.RoundStepType(1+c.r.Intn(8)))
 }
 
+// advUnlockProbe: while the node is locked on B, deliver a complete +2/3 prevote set for another
+// valid block C in a round BEFORE the lock round (which must not release the lock), skip to a later
+// round with +2/3-any prevotes split over several values (no polka), and give the node a complete
+// proposal for C there: a node that wrongly released the lock now prevotes C and the lock-rule
+// oracle fires.
+func (c *c03Case) advUnlockProbe() {
+	cs := c.nd.cs
+	if cs.LockedBlock == nil || cs.Step == cstypes.RoundStepCommit {
+		return
+	}
+	c.o.Count("family:unlock-probe")
+	h, lr := cs.Height, cs.LockedRound
+	blkC := c.newBlock("valid")
+	bidC := types.BlockID{Hash: blkC.blk.Hash(), PartsHeader: blkC.parts.Header()}
+	drain := func() {
+		for !c.dead && c.drainOne() {
+		}
+	}
+	for _, idx := range c.r.Perm(c.net.n) {
+		if idx == c.nd.me || c.dead {
+			continue
+		}
+		v, ok := c.signVoteAs(idx, kproto.PrevoteType, h, lr-1, bidC, 0)
+		c.opVote(1+c.r.Intn(3), v, ok)
+	}
+	drain()
+	if c.dead || cs.Height != h {
+		return
+	}
+	// a later round whose proposer is not the node
+	target := cs.Round + 1
+	for c.proposerAt(h, target) == c.nd.me && target < c03MaxRounds-4 {
+		target++
+	}
+	vals := []types.BlockID{{}, {Hash: common.BytesToHash([]byte{9, 1}), PartsHeader: types.PartSetHeader{Total: 1, Hash: common.BytesToHash([]byte{10, 1})}},
+		{Hash: common.BytesToHash([]byte{9, 2}), PartsHeader: types.PartSetHeader{Total: 1, Hash: common.BytesToHash([]byte{10, 2})}}}
+	sums := make([]int64, 3)
+	k := 0
+	for _, idx := range c.r.Perm(c.net.n) {
+		if idx == c.nd.me || c.dead {
+			continue
+		}
+		// never let one value reach +2/3
+		for try := 0; try < 3 && 3*(sums[k%3]+c.net.powers[idx]) > 2*c.net.total; try++ {
+			k++
+		}
+		if 3*(sums[k%3]+c.net.powers[idx]) > 2*c.net.total {
+			continue
+		}
+		sums[k%3] += c.net.powers[idx]
+		v, ok := c.signVoteAs(idx, kproto.PrevoteType, h, target, vals[k%3], 0)
+		c.opVote(1+c.r.Intn(3), v, ok)
+		k++
+	}
+	drain()
+	if c.dead || cs.Height != h || cs.Round != target || cs.Proposal != nil {
+		return
+	}
+	p := types.NewProposal(h, target, 0, bidC)
+	signer := c.proposerAt(h, target)
+	if signer == c.nd.me || signer < 0 {
+		return
+	}
+	pp := p.ToProto()
+	if err := c.net.pvs[signer].SignProposal(c03ChainID, pp); err != nil {
+		panic(err)
+	}
+	p.Signature = pp.Signature
+	c.opProposal(p, signer, 1)
+	c.opBlock(h, target, blkC, 1)
+	drain()
+	c.o.Mark("unlock-probe-completed")
+}
+
 func (c *c03Case) script(maxOps int) {
 	cs := c.nd.cs
 	for c.opNo < maxOps && !c.dead {
@@ -1373,6 +1487,10 @@ func (c *c03Case) script(maxOps int) {
 			f := c.campaign[0]
 			c.campaign = c.campaign[1:]
 			f()
+			continue
+		}
+		if cs.LockedBlock != nil && cs.Step != cstypes.RoundStepCommit && c.r.Chance(1, 10) {
+			c.advUnlockProbe()
 			continue
 		}
 		wProp, wBlock, wCamp, wTime := 8, 8, 30, 14
@@ -1445,7 +1563,7 @@ func TestVerifC03(t *testing.T) {
 		cfg.IsSkipTimeoutCommit = r.Chance(1, 4)
 		nd := c03NewNode(net, me, cfg)
 		c := &c03Case{o: o, r: r, net: net, nd: nd, hashes: map[common.Hash]int{}, partsH: map[string]int{},
-			seen: map[uint64]*types.Commit{}, byHash: map[common.Hash]*c03Block{}, held: map[common.Hash]bool{}, signedKey: map[string]string{}}
+			seen: map[uint64]*types.Commit{}, byz: map[int]bool{}, firstVote: map[string]string{}, byHash: map[common.Hash]*c03Block{}, held: map[common.Hash]bool{}, signedKey: map[string]string{}}
 		ms := "-"
 		if me >= 0 {
 			ms = fmt.Sprint(me)
